@@ -11,6 +11,7 @@ package main
 
 import (
 	"bytes"
+	"encoding/hex"
 	"encoding/json"
 	"fmt"
 	"math/rand"
@@ -234,7 +235,7 @@ func genSpec(r *hxlib.Run, rng *rand.Rand, kind string) Spec {
 				if rng.Intn(5) == 0 {
 					ne = 1
 				}
-				op := Op{Kind: "tr", Org: rng.Intn(3)}
+				op := Op{Kind: "tr", Org: rng.Intn(3), F: rng.Intn(2) == 0}
 				for e := 0; e < ne; e++ {
 					item++
 					op.Entries = append(op.Entries, EntOp{Lvl: 1 + rng.Intn(6), Item: item})
@@ -291,7 +292,72 @@ func genSpec(r *hxlib.Run, rng *rand.Rand, kind string) Spec {
 		}
 		s.Prods = append(s.Prods, prog)
 	}
+	if !light {
+		addStartFlags(rng, &s)
+	}
 	return s
+}
+
+// genFlagLevel draws a -log / -plog level name: the documented names in any case, and names Start must not
+// accept (ASCII only: the model lower-cases ASCII).
+func genFlagLevel(rng *rand.Rand) string {
+	names := []string{"trace", "debug", "info", "warning", "error", "critical"}
+	n := names[rng.Intn(6)]
+	switch rng.Intn(8) {
+	case 0:
+		return strings.ToUpper(n)
+	case 1:
+		return strings.ToUpper(n[:1]) + n[1:]
+	case 2:
+		b := []byte(n)
+		for i := range b {
+			if rng.Intn(2) == 0 {
+				b[i] -= 32
+			}
+		}
+		return string(b)
+	case 3, 4:
+		return []string{"warn", "verbose", "7", "3", " info", "info ", "none", "tracee", "err", "crit", "all", "✓"}[rng.Intn(12)]
+	}
+	return n
+}
+
+// addStartFlags: in one scenario of three the logger is started with -log and/or -plog; a sweep producer
+// (appended last, run alone and first) then measures the levels in force on the real logger.
+func addStartFlags(rng *rand.Rand, s *Spec) {
+	if rng.Intn(3) != 0 {
+		return
+	}
+	if rng.Intn(3) != 0 {
+		s.FlagLog = genFlagLevel(rng)
+	}
+	if rng.Intn(3) != 0 {
+		var pairs []string
+		for i, n := 0, 1+rng.Intn(5); i < n; i++ {
+			name := []string{"orga", "orgb", "orgc", "zzz", "database", ""}[rng.Intn(6)]
+			switch rng.Intn(12) {
+			case 0:
+				pairs = append(pairs, name) // no level
+			case 1:
+				pairs = append(pairs, name+"="+genFlagLevel(rng)+"="+genFlagLevel(rng))
+			case 2:
+				pairs = append(pairs, "")
+			case 3:
+				pairs = append(pairs, name+"=")
+			default:
+				pairs = append(pairs, name+"="+genFlagLevel(rng))
+			}
+		}
+		s.FlagPkgs = strings.Join(pairs, ",")
+	}
+	var sweep []Op
+	for o := 0; o < 3; o++ {
+		for l := 1; l <= 6; l++ {
+			sweep = append(sweep, Op{Kind: "log", Lvl: l, Org: o, Item: 1 + o*6 + (l - 1), Reps: 1})
+		}
+	}
+	s.Prods = append(s.Prods, sweep)
+	s.Sweep = true
 }
 
 // genMixed draws a scenario about the merge decision of the writer (`logLine.Equal`): what counts as
@@ -584,8 +650,22 @@ func generate(r *hxlib.Run, emit func(hxlib.Case)) {
 	if len(lv) > 0 {
 		emit(hxlib.Case{Lines: lv, Kind: "filter-probe", NonTrivial: true})
 	}
+	// (1b) ParseLevel / Severity.Name on the real package against the regenerated tables
+	{
+		var pl []string
+		for i := 0; i < r.Budget(300, 3000); i++ {
+			pl = append(pl, "pl "+hexOrDash(genFlagLevel(rng)))
+			if i%10 == 0 {
+				pl = append(pl, fmt.Sprintf("nm %d", rng.Intn(9)))
+			}
+		}
+		pl = append(pl, "pl -")
+		for i := 0; i < len(pl); i += 60 {
+			emit(hxlib.Case{Lines: pl[i:min(i+60, len(pl))], Kind: "level-names", NonTrivial: true})
+		}
+	}
 	// (2) malformed / out-of-protocol lines: the driver must reject, never default
-	emit(hxlib.Case{Lines: []string{"lv x 1 - 0 3", "lv 3 1 0=x 0 3", "w bogus", "p 0 1 enq ret", "p 0 1 line won ret", "item 0 1 3 0 p 9:1*1", "out 1:2", "frobnicate"}, Kind: "malformed"})
+	emit(hxlib.Case{Lines: []string{"lv x 1 - 0 3", "lv 3 1 0=x 0 3", "w bogus", "p 0 1 enq ret", "p 0 1 line won ret", "item 0 1 3 0 p 9:1*1", "out 1:2", "frobnicate", "pl zz", "nm x", "start - - 3 0"}, Kind: "malformed"})
 	emit(hxlib.Case{Lines: []string{"w token token"}, Kind: "malformed"})
 	emit(hxlib.Case{Lines: []string{"w token unset slot W:1:3:1:10:0:0", "p 0 1 line enq won tokFull ret", "p 0 1 line enq won ret"}, Kind: "malformed"})
 	// (3) scenarios on the real logger, child process each
@@ -696,6 +776,7 @@ type runRec struct {
 	bad    string
 
 	prevDeq []string
+	start   []string // "start <log> <plog> <pre-cfg> <thr0> <thr1> <thr2> <glob>"
 }
 
 func atoi(s string) int { n, _ := strconv.Atoi(s); return n }
@@ -833,6 +914,11 @@ func parseRun(lines []string) *runRec {
 				} else {
 					rr.meta[p[0]] = atoi(p[1])
 				}
+			}
+		case "start":
+			if len(f) == 10 {
+				rr.start = f
+				rr.counts["start:flags:"+map[bool]string{true: "log", false: "nolog"}[f[1] != "-"]+"+"+map[bool]string{true: "plog", false: "noplog"}[f[2] != "-"]]++
 			}
 		case "childfail":
 			rr.bad = l
@@ -1046,9 +1132,45 @@ func monitor(c hxlib.Case, outs []string) (vs []hxlib.Violation) {
 		return nil
 	}
 	switch strings.Fields(c.Lines[0])[0] {
+	case "pl", "nm":
+		// the documented names, read by the harness itself
+		for i, l := range c.Lines {
+			f := strings.Fields(l)
+			if len(f) != 2 || i >= len(outs) {
+				continue
+			}
+			want := ""
+			switch f[0] {
+			case "pl":
+				b, err := hex.DecodeString(f[1])
+				if err != nil && f[1] != "-" {
+					continue
+				}
+				want = fmt.Sprintf("n=%d", levelNames[strings.ToLower(string(b))])
+			case "nm":
+				want = "s=none"
+				for k, v := range levelNames {
+					if strconv.Itoa(v) == f[1] {
+						want = "s=" + k
+					}
+				}
+			}
+			if outs[i] != want {
+				vs = append(vs, hxlib.Violation{Sig: "C20:level-names", What: fmt.Sprintf("level name table: %s gives %s, documented: %s", l, outs[i], want), Lines: []string{l}, Output: []string{outs[i]}})
+			}
+		}
 	case "scenario":
 		rr := parseRun(c.Lines)
 		v := rr.verdict()
+		if v == "pass" && rr.start != nil {
+			// the levels in force after Start, measured on the real logger, against the harness' reading of the flags
+			c0 := rr.cfgs[0]
+			clamp := func(x int) int { return max(1, min(7, x)) }
+			want := fmt.Sprintf("%d %d %d %d", clamp(inForce(c0, 0)), clamp(inForce(c0, 1)), clamp(inForce(c0, 2)), c0.Glob)
+			if got := strings.Join(rr.start[6:10], " "); got != want {
+				v = "fail start-levels measured=" + strings.ReplaceAll(got, " ", ",") + " expected=" + strings.ReplaceAll(want, " ", ",")
+			}
+		}
 		if v != "pass" {
 			f := strings.Fields(v)
 			keep := c.Lines
@@ -1099,6 +1221,8 @@ func explain(cls string) string {
 		return "the adapter received a line nobody logged at that position (reordering or invention)"
 	case "trace":
 		return "a tracer submission did not carry exactly its collected lines, or was written with a repetition count (another line counted as its repetition)"
+	case "start-levels":
+		return "the levels in force after Start (lowest severity emitted per origin, GetLogLevel) are not what the -log / -plog flags and the levels set before Start prescribe"
 	case "tracer-lost":
 		return "a context-tracer submission that had to be written did not reach the adapter, in program order, as a line of its own with its collected lines (swallowed as a repetition of another line, dropped, or written out of order)"
 	case "quiesce-timeout":
@@ -1147,6 +1271,32 @@ func (e *execT) Do(line string) string {
 		return parseRun(e.lines).verdict()
 	case "lv":
 		return probe(f)
+	case "pl": // the real ParseLevel
+		if len(f) != 2 {
+			return "bad-op"
+		}
+		str := ""
+		if f[1] != "-" {
+			b, err := hex.DecodeString(f[1])
+			if err != nil {
+				return "bad-op"
+			}
+			str = string(b)
+		}
+		return fmt.Sprintf("n=%d", log.ParseLevel(str))
+	case "nm": // the real Severity.Name
+		n, err := strconv.Atoi(f[1])
+		if len(f) != 2 || err != nil {
+			return "bad-op"
+		}
+		return "s=" + log.Severity(n).Name()
+	case "start":
+		// recorded in the child: the levels in force after the real Start read the flags (sweep over
+		// origins × severities, GetLogLevel)
+		if len(f) != 10 {
+			return "bad-op"
+		}
+		return "thr " + strings.Join(f[6:10], " ")
 	}
 	return "bad-op"
 }
